@@ -138,6 +138,51 @@ def _cb_chunk(chunk, prop):
                     res.violations.append(Violation(prop, "ensures wf(T) after calc_data_id raised (C01-C03)", "calc_data_id@" + opname, wit, clip(v)))
                 if raised and view.obs(t) != before:
                     res.violations.append(Violation(prop, "ensures the tree is unchanged when calc_data_id raises", "calc_data_id@" + opname, wit, clip(view.fmt(t))))
+        # a user node factory refusing the k-th node while a branch / a whole tree is copied in: what was built so far must be
+        # a well-formed part of the target (registered *and* attached, or neither), the source untouched
+        if len(spec.nodes) >= 2:
+            from nutree import Tree
+            from nutree.node import Node
+
+            for k in range(1, len(spec.nodes) + 1):
+                for opname in ("add(node, deep)", "copy_to(deep)", "add(tree)", "Tree.copy_to"):
+                    made = {"n": 0, "armed": False}
+
+                    class CheckedNode(Node):
+                        def __init__(self, data, *, parent, data_id=None, node_id=None, meta=None, _m=made, _k=k):
+                            if _m["armed"]:
+                                _m["n"] += 1
+                                if _m["n"] == _k:
+                                    raise Boom(f"node factory refuses node #{_k}")
+                            super().__init__(data, parent=parent, data_id=data_id, node_id=node_id, meta=meta)
+
+                    src, snodes = gen.build(spec)
+                    tgt = Tree("target", factory=CheckedNode)
+                    anchor = tgt.add("anchor_of_target")
+                    src_before = view.obs(src)
+                    made["armed"] = True
+                    wit = {"kind": "factory", "spec": mut._spec_json(spec), "op": opname, "k": k}
+                    try:
+                        if opname == "add(node, deep)":
+                            anchor.add(snodes[0], deep=True)
+                        elif opname == "copy_to(deep)":
+                            snodes[0].copy_to(anchor, deep=True)
+                        elif opname == "add(tree)":
+                            anchor.add(src)
+                        else:
+                            src.copy_to(tgt)
+                        raised = False
+                    except Boom:
+                        raised = True
+                    except Exception as e:  # noqa: BLE001
+                        res.violations.append(Violation(prop, "ensures only the callback's own exception escapes", "node factory@" + opname, wit, clip(f"{type(e).__name__}: {e}")))
+                        raised = True
+                    made["armed"] = False
+                    res.add_case(f"{spec.short()} factory {opname} k={k}", nontrivial=raised)
+                    for v in view.wf_violations(tgt)[:2]:
+                        res.violations.append(Violation(prop, "ensures wf(T) after the node factory raised (C01-C03)", "node factory@" + opname, wit, clip(v)))
+                    if view.obs(src) != src_before:
+                        res.violations.append(Violation(prop, "ensures the source of a copy is unchanged when the node factory raises", "node factory@" + opname, wit, clip(view.fmt(src))))
     return res
 
 
@@ -200,7 +245,7 @@ def run(prop, tier, only=None):
     n = 3 if tier == "quick" else 4
     specs = list(gen.plain_specs(n, min_n=1))
     total.merge(parallel(_cb_chunk, specs, prop, prop=prop))
-    total.bounds["callback raises at its k-th invocation"] = f"all plain forests with 1..{n} nodes x every operation taking a callback x every k in 1..n+1; calc_data_id raising at k in 1..3"
+    total.bounds["callback raises at its k-th invocation"] = f"all plain forests with 1..{n} nodes x every operation taking a callback x every k in 1..n+1; calc_data_id raising at k in 1..3; a node factory of the target tree refusing the k-th node (every k) while a branch / the whole tree is copied in (add(node, deep), copy_to(deep), add(tree), Tree.copy_to)"
     return total
 
 
@@ -213,4 +258,4 @@ def replay(witness, prop):
         r = _ro_chunk([(witness["family"], spec)], prop)
         return [(v.clause, v.text) for v in r.violations if v.witness.get("op") == witness.get("op")]
     r = _cb_chunk([spec], prop)
-    return [(v.clause, v.text) for v in r.violations if v.witness.get("op") == witness.get("op") and v.witness.get("k") == witness.get("k")]
+    return [(v.clause, v.text) for v in r.violations if v.witness.get("op") == witness.get("op") and v.witness.get("k") == witness.get("k") and v.witness.get("kind") == witness.get("kind")]
